@@ -6,6 +6,11 @@ structure D where
   sp : C19.Spec := {}
 
 def step (d : D) (op impl : String) : D × DrvOut :=
+  -- instance-level ops of the controlled static source: invisible to the path loop (model answer `-`)
+  if op == "srcfail" then (d, { model := "-" }) else
+  if op == "runs" then
+    let sp' := C19.specRuns d.sp impl
+    ({ d with sp := sp' }, { model := "-", spec := sp'.verdict }) else
   let o := Drv.parseOp op
   let (m', _, ans) := Drv.exec d.m o
   let sp' := C19.specOp d.sp d.m.st o impl
